@@ -65,7 +65,7 @@ def cmd_digest(args):
     mask = driver.mask_for(args.prop)
     driver._init_worker()
     for i in range(args.first, args.first + args.count):
-        r = driver.run_one(args.prop, args.seed, i, "quick", mask, False, True)
+        r = driver.run_one(args.prop, args.seed, i, "quick", mask, False, True, False)
         if r.get("harness_error"):
             print(json.dumps({"index": i, "error": r["harness_error"]}))
         else:
